@@ -28,6 +28,9 @@ func caseSrc(c *Case, at atoms, i int, bare bool) string {
 	if c.Fam == "aft" {
 		return aftSrc(c, at, i, bare)
 	}
+	if c.Fam == "nest" {
+		return nestSrc(c, at, i, bare)
+	}
 	var sb strings.Builder
 	recv := c.Recv
 	if c.Pre != "" {
@@ -89,7 +92,7 @@ func parseSection(out string, i int) (Obs, bool) {
 		case 'A':
 			seenA = true
 			o.After = p[1:]
-		case 'v', 'a':
+		case 'v', 'a', 'h':
 			if o.Extra == nil {
 				o.Extra = map[string]string{}
 			}
@@ -230,6 +233,9 @@ func compare(c *Case, e *Exp, o *Obs) string {
 	if c.Fam == "aft" {
 		return compareAft(c, e, o)
 	}
+	if c.Fam == "nest" {
+		return compareNest(c, e, o)
+	}
 	switch o.Kind {
 	case "crash":
 		return "crash"
@@ -305,6 +311,9 @@ func expect(c *Case, at atoms) Exp {
 	if c.Fam == "aft" {
 		return expectAft(c, at)
 	}
+	if c.Fam == "nest" {
+		return expectNest(c, at)
+	}
 	// "arr2": c.Recv is the model's receiver after the first step
 	return expectArr(c, at)
 }
@@ -318,6 +327,9 @@ func describeExp(e *Exp) string {
 		s := "after=" + canon(a.After)
 		if !e.NoResult {
 			s = "result=" + canon(a.Res) + " " + s
+		}
+		if e.HasHist {
+			s += " $h=" + canon(e.Hist)
 		}
 		for k := 0; k < 8; k++ {
 			if i >= len(e.AltArgs) {
@@ -351,6 +363,9 @@ func describeObs(o *Obs) string {
 		s := "result=" + o.Res + " after=" + o.After
 		if o.Pre != "" {
 			s = "(after first step " + o.Pre + ") " + s
+		}
+		if h, ok := o.Extra["h"]; ok {
+			s += " $h=" + h
 		}
 		for k := 0; k < 8; k++ {
 			if g, ok := o.Extra[fmt.Sprintf("G%d", k)]; ok {
